@@ -384,7 +384,7 @@ def unrename_locals(prog):
 # ---------------------------------------------------------------------------------------- P13 (new pure locals are inlined)
 PURE_CALLS = {"len", "range", "list", "tuple", "zip", "enumerate", "sorted", "dict", "set", "min", "max", "sum", "abs", "isinstance", "hasattr", "bool", "int", "float",
               "vertcat", "horzcat", "veccat", "vvcat", "vcat", "hcat", "MX", "DM", "repmat", "reversed", "any", "all",
-              "depends_on", "symvar", "is_equal", "str", "repr", "getattr", "type", "partial"}
+              "depends_on", "symvar", "is_equal", "str", "repr", "getattr", "type", "partial", "product"}
 
 
 PURE_METHODS = {"numel", "nnz", "size1", "size2", "sparsity", "name", "dim", "keys", "values", "items", "get", "index", "count", "is_scalar", "is_symbolic", "is_constant",
@@ -591,7 +591,9 @@ def inline_new_locals(prog):
                                     for ch in ast.iter_child_nodes(n):
                                         if isinstance(ch, ast.Name) and ch.id == name and not isinstance(n, (ast.Call, ast.keyword)):
                                             handed_on = False
-                            if not handed_on:
+                            # a list that is only iterated over (header of a loop / comprehension) may be written out at each use too
+                            iter_uses = sum(1 for s_ in after for n in ast.walk(s_) if isinstance(n, (ast.comprehension, ast.For)) and isinstance(n.iter, ast.Name) and n.iter.id == name)
+                            if not handed_on and iter_uses != uses_total:
                                 continue
                     last = max(j for j, s_ in enumerate(after) if any(isinstance(n, ast.Name) and n.id == name for n in ast.walk(s_)))
                     paths = _read_paths(st.value) - {name}
@@ -1002,6 +1004,29 @@ class _Canon(ast.NodeTransformer):
         self.generic_visit(n)
         return n
 
+    @staticmethod
+    def _product_args(it):
+        """arguments of product(A, B, ..) / list(product(A, B, ..)), else None"""
+        if isinstance(it, ast.Call) and isinstance(it.func, ast.Name) and it.func.id == "list" and len(it.args) == 1 and not it.keywords:
+            it = it.args[0]
+        if isinstance(it, ast.Call) and ast.unparse(it.func) in ("product", "itertools.product") and not it.keywords and len(it.args) >= 2 and not any(isinstance(a, ast.Starred) for a in it.args):
+            return it.args
+        return None
+
+    def _split_products(self, n):
+        # P46: [.. for k, i in product(A, B)] -> [.. for k in A for i in B]
+        gens = []
+        for g in n.generators:
+            args = self._product_args(g.iter)
+            if args is not None and isinstance(g.target, ast.Tuple) and len(g.target.elts) == len(args) and not g.is_async:
+                self.count += 1
+                for q, (t, a) in enumerate(zip(g.target.elts, args)):
+                    gens.append(ast.comprehension(target=t, iter=a, ifs=g.ifs if q == len(args) - 1 else [], is_async=0))
+            else:
+                gens.append(g)
+        n.generators = gens
+        return n
+
     def visit_IfExp(self, n):
         self._const_right(n.test)
         self.generic_visit(n)
@@ -1049,8 +1074,12 @@ class _Canon(ast.NodeTransformer):
                     self.count += 1
         return n
 
-    visit_ListComp = _project
-    visit_GeneratorExp = _project
+    def _comp(self, n):
+        n = self._project(n)
+        return self._split_products(n)
+
+    visit_ListComp = _comp
+    visit_GeneratorExp = _comp
 
     def visit_BinOp(self, n):
         # P27: [a] + [b, c] -> [a, b, c]
